@@ -5,5 +5,6 @@ CONSTANTS NClasses = 2
  ZeroK = TRUE
  MaxMarks = 1
  WithDeps = TRUE
+ MaxDeps = 2
 INVARIANT Emit
 CHECK_DEADLOCK FALSE
